@@ -8,5 +8,5 @@ IDivS(a, n) == a \div n
 IModS(a, n) == a % n
 IOfInt(n) == n
 INSTANCE Gauge WITH Add <- IAdd, Mul <- IMul, Le <- ILe, DivS <- IDivS, ModS <- IModS, OfInt <- IOfInt,
-                    Exact <- TRUE, Tol <- 1, E18 <- 1
+                    Exact <- TRUE, Tol <- 1
 =============================================================================
